@@ -307,11 +307,26 @@ where
     let cio = guarded(|| if <Cfg<C> as CurveConfig>::cofactor_is_one() { "1".into() } else { "0".into() });
     ctx.out.line(&head, &cio);
 
-    // ---- how many points: the driver recomputes every scalar multiplication with affine inversions
+    // ---- how many points: the driver recomputes every reference scalar multiplication in the affine
+    // group (one field inversion per group operation); `weight` ≈ cost of one such multiplication
+    // relative to a 256-bit curve over a prime field
     let dcost = [1.0, 1.0, 3.0, 6.0][deg.min(3)];
     let weight = dcost * (fbits / 256.0).powi(2) * ((rbits + hbits) / 512.0);
-    let base = if ctx.thorough { 120.0 } else { 10.0 };
-    let n = ((base / weight).round() as usize).clamp(if ctx.thorough { 6 } else { 2 }, if ctx.thorough { 400 } else { 16 });
+    let total = if ctx.thorough {
+        ((100.0 / weight).round() as usize).clamp(10, 160)
+    } else {
+        ((12.0 / weight).round() as usize).clamp(4, 12)
+    };
+    // whole-curve points: small coordinates / largest coordinates / random coordinates
+    let n_small = (total / 5).max(1);
+    let n_neg = if total >= 8 { (total / 10).max(1) } else { 0 };
+    let n_rand = (total / 5).max(1);
+    // points r·P of small order, of which `n_tors` are split further into prime-order torsion
+    let n_q = (total / 6).max(1);
+    let n_tors = if ctx.thorough { (total / 12).max(1) } else { 1 };
+    // random subgroup points
+    let n_sub = (total / 5).max(1);
+    let n_samples = if ctx.thorough { (total / 6).max(2) } else { 1 };
 
     let mut rng = Sm::new(ctx.seed ^ id.bytes().fold(0u64, |a, b| a.wrapping_mul(131).wrapping_add(b as u64)));
 
@@ -321,7 +336,7 @@ where
         // small coordinates 0, 1, 2, …
         let mut k = 0u64;
         let mut hits = 0usize;
-        while hits < n && k < 4000 {
+        while hits < n_small && k < 4000 {
             if let Some(p) = C::from_coord(small_elem::<BF<C>>(k), hits % 2 == 1) {
                 whole.push(p);
                 hits += 1;
@@ -331,7 +346,7 @@ where
         // the largest coordinates p-1, p-2, …
         let mut k = 1u64;
         let mut hits = 0usize;
-        while hits < (n / 4).max(1) && k < 4000 {
+        while hits < n_neg && k < 4000 {
             if let Some(p) = C::from_coord(-small_elem::<BF<C>>(k), hits % 2 == 0) {
                 whole.push(p);
                 hits += 1;
@@ -340,7 +355,7 @@ where
         }
         // random coordinates
         let mut hits = 0usize;
-        while hits < n {
+        while hits < n_rand {
             let c = BF::<C>::rand(&mut rng);
             let g = rng.next() & 1 == 1;
             if let Some(p) = C::from_coord(c, g) {
@@ -353,14 +368,14 @@ where
     let h = biguint(cof);
     let mut small: Vec<C::A> = C::extra();
     if h > BigUint::from(1u32) {
-        let nq = (n / 2).max(2).min(whole.len());
+        let nq = n_q.min(whole.len());
         for (i, p) in whole.iter().take(nq).enumerate() {
             let q: C::A = match aff::<C::A>(p.mul_bigint(&rl)) {
                 Some(q) => q,
                 None => continue,
             };
             small.push(q);
-            if i >= 2 && !ctx.thorough {
+            if i >= n_tors {
                 continue;
             }
             for l in [2u32, 3, 5, 7, 11, 13] {
@@ -405,13 +420,17 @@ where
     }
     // ---- subgroup points
     let g = C::A::generator();
-    let mut sub: Vec<C::A> = vec![C::A::zero(), g, -g, (g + g).into()];
-    for _ in 0..n {
+    let mut sub: Vec<C::A> = vec![C::A::zero(), g];
+    if ctx.thorough {
+        sub.push(-g);
+        sub.push((g + g).into());
+    }
+    for _ in 0..n_sub {
         let k = SF::<C>::rand(&mut rng);
         sub.push(g.mul_bigint(k.into_bigint()).into());
     }
     // r-1, r+1 multiples of the generator written as scalars mod r: -G, and (r-1)/2·G
-    {
+    if ctx.thorough {
         let mut half = r;
         half.div2();
         sub.push(g.mul_bigint(half).into());
@@ -445,8 +464,10 @@ where
         let res = guarded(|| C::show(&p.clear_cofactor()));
         ctx.out.line(&format!("C12 clear {} {} {}", id, ps, href), &res);
         // mul_by_cofactor on every point
-        let res = guarded(|| C::show(&p.mul_by_cofactor()));
-        ctx.out.line(&format!("C12 mulcof {} {}", id, ps), &res);
+        if ctx.thorough {
+            let res = guarded(|| C::show(&p.mul_by_cofactor()));
+            ctx.out.line(&format!("C12 mulcof {} {}", id, ps), &res);
+        }
         // cofactor / inverse round trip on the subgroup
         if *is_sub {
             let res = guarded(|| C::show(&p.mul_by_cofactor().mul_by_cofactor_inv()));
@@ -455,7 +476,7 @@ where
     }
 
     // ---- random sampling
-    let ns = if ctx.thorough { (n / 2).max(4) } else { (n / 4).max(2) };
+    let ns = n_samples;
     for i in 0..2 * ns {
         let proj = i % 2 == 1;
         let mut replay = rng.clone();
